@@ -165,7 +165,7 @@ def run_program(rng, res, pid):
                             res.fail({'program': pid, 'log': log, 'object': -1, 'fmt': A_fmt(o_)}, 'C02: after a sub-array (or its parent) was widened by resize and written, the other one holds codes outside its own format', got=why); return
                 elif op == 'setitem_rejected':
                     # an indexed write that is rejected (a sequence that does not fit the selection; real or complex) leaves the object as it was
-                    if np.asarray(x.val).ndim == 1 and np.asarray(x.val).size >= 2 and not np.iscomplexobj(x.val):
+                    if x.n_word >= 1 and np.asarray(x.val).ndim == 1 and np.asarray(x.val).size >= 2 and not np.iscomplexobj(x.val):
                         before = (A_fmt(x), lib.codes_of(x), x.dtype, str(x.vdtype))
                         bad_ = rng.choice([[1j, 2j, 3j, 4j, 5j], [0.5, 0.25, 1.0, 2.0, 3.0, 1.0, 1.0], [1 + 1j] * 7])
                         try: x[0:2] = bad_; rejected = False
@@ -175,6 +175,7 @@ def run_program(rng, res, pid):
                             res.fail({'program': pid, 'log': log, 'object': pool.index(x), 'fmt': before[0]}, 'C02: a rejected indexed write (ValueError) left the object half-updated', expected=before, got=after); return
                 elif op == 'resize_rejected':
                     # a resize that is rejected (dtype= together with another size parameter) leaves the object as it was
+                    if x.n_word < 1: continue      # (a zero-bit word - what size inference gives to all-zero unsigned values - is outside every quantifier)
                     before = (A_fmt(x), lib.codes_of(x) if not np.iscomplexobj(x.val) else None, x.dtype)
                     try:
                         if rng.random() < 0.5: x.resize(signed=not x.signed, dtype='fxp-%s%d/%d' % ('u' if x.signed else 's', x.n_word, x.n_frac))
